@@ -2,6 +2,8 @@ package gvc
 
 import (
 	"bufio"
+
+	"golang.org/x/tools/go/ssa"
 	"encoding/json"
 	"flag"
 	"fmt"
@@ -207,17 +209,43 @@ func (w *World) CheckProperty(prop, tier string, timeoutMs int, dump string, ver
 		}
 		names = append(names, n)
 	}
+	// guarded_by declarations tagged with this property: every repository function that touches a guarded
+	// field is examined (no annotation needed), so that a new unsynchronised access anywhere is noticed
+	for _, gd := range w.C.Guarded {
+		if !hasTag(gd.Tags, prop) {
+			continue
+		}
+		for n, fn := range w.P.Funcs {
+			if !w.P.InRepo(FuncPkgPath(fn)) || len(fn.Blocks) == 0 {
+				continue
+			}
+			if touchesField(fn, gd.Field) {
+				found := false
+				for _, x := range names {
+					if x == n {
+						found = true
+					}
+				}
+				if !found {
+					names = append(names, n)
+				}
+			}
+		}
+	}
 	sort.Strings(names)
 	for _, n := range names {
 		fc := w.C.Funcs[n]
 		fn := w.P.Funcs[n]
+		if fc != nil && fc.Trusted && fn != nil && !fc.Tags[prop] {
+			fc = nil // a trusted contract says nothing about locking: scan the body anyway
+		}
 		if fn == nil {
 			o := &Obligation{Name: n + "/contract-binding#1", Func: n, Kind: "contract-binding", Tags: []string{prop}, Status: "failed",
 				Detail: map[string]string{"why": "contract names a function that does not exist in the tree"}, File: fc.File, Line: fc.Line}
 			r.Structural = append(r.Structural, o)
 			continue
 		}
-		if fc.Trusted {
+		if fc != nil && fc.Trusted {
 			r.Trusted = append(r.Trusted, n)
 			continue
 		}
@@ -232,7 +260,10 @@ func (w *World) CheckProperty(prop, tier string, timeoutMs int, dump string, ver
 			// every clause of this function is undecided, which is reported as a failed binding obligation
 			o := &Obligation{Name: n + "/contract-binding#0", Func: n, Kind: "contract-binding", Tags: []string{prop}, Status: "failed",
 				Text:   "the contract of this function can no longer be bound to its code",
-				Detail: map[string]string{"why": err.Error()}, File: fc.File, Line: fc.Line}
+				Detail: map[string]string{"why": err.Error()}}
+			if fc != nil {
+				o.File, o.Line = fc.File, fc.Line
+			}
 			r.Structural = append(r.Structural, o)
 			continue
 		}
@@ -497,6 +528,23 @@ func (r *PropResult) Report() int {
 		return 1
 	}
 	return 0
+}
+
+// touchesField: the function contains a FieldAddr of the named field ("pkgpath.Type.field").
+func touchesField(fn *ssa.Function, field string) bool {
+	for _, b := range fn.Blocks {
+		for _, ins := range b.Instrs {
+			fa, ok := ins.(*ssa.FieldAddr)
+			if !ok {
+				continue
+			}
+			st := deref(fa.X.Type())
+			if s, isStruct := structOf(st); isStruct && shortType(st)+"."+s.Field(fa.Field).Name() == field {
+				return true
+			}
+		}
+	}
+	return false
 }
 
 func writeReplay(r *PropResult, o *Obligation) string {
